@@ -60,7 +60,12 @@ def expected_rows(part, rests=False):
             summed += int(last.end.t) - int(last.start.t)
             seen += 1
         off = int(last.end.t) if last.end is not None else on
-        chain_gap = (off - on) != summed          # a tie chain with a gap (importer artefact): its length is not defined by the statement
+        # a tie chain whose notes are not adjacent (a tie from a first ending into the second one, a tie across a jump): the
+        # chain sounds for the SUM of its notes' timeline durations, not for the span from its first onset to its last end;
+        # only the quarter/beat durations of such a chain are left open (the maps are not additive across a signature change)
+        chain_gap = (off - on) != summed
+        if chain_gap and not rests:
+            off = on + summed
         if rests:
             off = int(n.end.t)
         voice = n.voice
@@ -130,9 +135,6 @@ def compare(ctx, label, arr, rows, opts, d_s, w, rests=False, scale=1, prefix=""
         ctx.check(4)
         if int(a["onset_div"]) != r["onset_div"] * scale:
             return bad("onset_div", int(a["onset_div"]), r["onset_div"] * scale)
-        if r.get("chain_gap"):
-            ctx.ambiguous()
-            continue
         if int(a["duration_div"]) != r["duration_div"] * scale:
             tie = "-tie-chain" if getattr(r["obj"], "tie_next", None) is not None else ("-grace" if r["is_grace"] else "")
             return bad("duration_div", int(a["duration_div"]), r["duration_div"] * scale, f"{label}-cell-duration_div{tie}")
@@ -147,7 +149,7 @@ def compare(ctx, label, arr, rows, opts, d_s, w, rests=False, scale=1, prefix=""
                 return bad("voice", int(a["voice"]), "a number no voiced note carries", f"{label}-missing-voice-collides")
         for col in ("onset_beat", "duration_beat", "onset_quarter", "duration_quarter"):
             if col in names and col in r:
-                if r[col] is None:
+                if r[col] is None or (r.get("chain_gap") and col.startswith("duration")):
                     ctx.ambiguous()
                     continue
                 ctx.check()
@@ -388,6 +390,25 @@ def zero_based_voice(rng, part):
             n.voice = 0
 
 
+def gapped_tie_chain(ctx, rng, part):
+    """hostile: a tie chain whose notes are not adjacent on the timeline (a note of a first ending tied into the second
+    ending): two or three notes of one pitch in a voice of their own, with stretches between them"""
+    import partitura.score as S
+    last = int(part.last_point.t) if part.last_point is not None else 0
+    if last < 12:
+        return
+    k = rng.choice([2, 2, 3])
+    cuts = sorted(rng.sample(range(0, last), 2 * k))
+    prev = None
+    for i in range(k):
+        n = S.Note("G", rng.choice([3, 4, 5]) if prev is None else prev.octave, id=f"gap{i}", voice=17, staff=1)
+        part.add(n, cuts[2 * i], cuts[2 * i + 1])
+        if prev is not None:
+            prev.tie_next, n.tie_prev = n, prev
+        prev = n
+    ctx.extra["tie_chains_with_a_gap_between_their_notes"] += 1
+
+
 def run_item(ctx, item):
     import partitura.score as S
     import partitura.utils.music as M
@@ -400,6 +421,8 @@ def run_item(ctx, item):
             strip_some(rng, part)
         if rng.random() < 0.2:
             zero_based_voice(rng, part)
+        if rng.random() < 0.3:
+            gapped_tie_chain(ctx, rng, part)
         single_div = len(part.quarter_durations()) == 1
         for rep in range(3):
             opts = {o: rng.random() < 0.5 for o in OPTS}
